@@ -75,11 +75,20 @@ class _Rec(Expand):
             if ta == tb:
                 res[name] = ta
                 continue
-            if ta is None or tb is None:
-                # bound on one side only: a later read can only follow the
-                # binding path (anything else is a NameError)
+            if (ta is None or tb is None) and '.' not in name:
+                # a local bound on one side only: a later read can only follow
+                # the binding path (anything else is a NameError)
                 res[name] = ta if tb is None else tb
                 continue
+            if ta is None or tb is None:
+                # an attribute stored on one side only keeps its previous,
+                # unknown value on the other: alt(<the attribute itself>, stored)
+                own = self._key(ast.parse(name, mode='eval').body)
+                ta = own if ta is None else ta
+                tb = own if tb is None else tb
+                if ta == tb:
+                    res[name] = ta
+                    continue
             merged = None
             if name not in self.widened:
                 alts = {}
